@@ -8,6 +8,8 @@ var Sigma = []string{
 	"\t", "\v", " ", "\r", "\n", "#", "!", "<", "?", ">", "=", "p", "h", "0", "1", "8", "_", ".", "x", "b", "e", "a", "f", "g", "E", "B",
 	"+", "-", "'", "\"", "\\", "$", "{", "}", "[", "]", "(", ")", ";", ":", ",", "|", "/", "^", "&", "*", "%", "~", "@", "`", "\x00", "\x7f", "\x80", "\xff", "A",
 	"<?php ", "<?", "<?=", "?>", "<<<A\n", "<<<'A'\n", "A;\n", "->", "::", "{$", "${", "__halt_compiler",
+	// number forms that take their own paths in the scanner and in the string-offset grammar actions
+	"0x1F", "0b11", "99999999999999999999",
 }
 
 // Core: the symbols that reach every scanner machine and every look-ahead helper (deeper bound).
